@@ -34,6 +34,11 @@ type faultCtx struct {
 
 func runFaultFamily(s *Sim, prop string) {
 	t := s.T
+	if prop == "C02" && t.Seed%3 == 0 {
+		// every third seed executes one point of the deterministic cut sweep
+		runC02Sweep(s, int(t.Seed/3))
+		return
+	}
 	s.Family = "fault-cuts"
 	bc := BrokerCfg{
 		AutoReq:     !t.Bool("manual-req", 1, 6),
@@ -369,4 +374,151 @@ func (fc *faultCtx) fault() {
 	s.Logf("fault: %s %s (broker saw %d more frames, released %d replies, client got %d more frames; lost c2b=%d b2c=%d)", kind, l, keepC, relN, keepB, lostC, lostB)
 	s.Wait()
 	s.Harvest()
+}
+
+// ---------------------------------------------------------------------------
+// C02 enumeration: one cut at every frame boundary of a fixed base scenario.
+//
+// Base scenario: one reliable upstream with the immediate flush policy, four writes, acks
+// released for a chosen subset. The run index (derived from the seed, so that consecutive seeds
+// enumerate the space) selects: the position of the cut among the frame movements, whether the
+// frames in flight in either direction are still exchanged, which chunks are acknowledged before
+// the cut, the resume outcome, and whether the resume exchange itself is cut once more.
+
+const (
+	sweepWrites    = 4
+	sweepPositions = 3*sweepWrites + 1
+)
+
+func c02SweepTotal() int { return sweepPositions * 2 * 2 * (1 << sweepWrites) * 2 * 2 }
+
+func runC02Sweep(s *Sim, idx int) {
+	total := c02SweepTotal()
+	idx %= total
+	x := idx
+	pos := x % sweepPositions
+	x /= sweepPositions
+	keepC := x % 2
+	x /= 2
+	keepB := x % 2
+	x /= 2
+	mask := x % (1 << sweepWrites)
+	x /= 1 << sweepWrites
+	conflict := x % 2
+	x /= 2
+	cutResume := x % 2
+	s.Family = "fault-cut-sweep"
+	s.Cover(fmt.Sprintf("c02-sweep:%d", idx))
+	bc := BrokerCfg{AutoReq: true, AutoAck: false, AutoPong: true, AutoCallAck: true, AutoAckComplete: true}
+	y := newSys(s, bc)
+	y.PingInterval, y.PingTimeout = 2*time.Second, time.Second
+	fc := &faultCtx{y: y, prop: "C02", resumeCut: map[uuid.UUID]bool{}, refused: map[uuid.UUID]bool{}, lostCalls: map[string]bool{}}
+	s.Net.OnLost = func(l *Link, dir string, m message.Message) {
+		if r, ok := m.(*message.UpstreamResumeRequest); ok {
+			fc.resumeCut[r.StreamID] = true
+		}
+		if _, ok := m.(*message.UpstreamResumeResponse); ok {
+			for _, u := range s.Broker.Ups {
+				fc.resumeCut[u.ID] = true
+			}
+		}
+	}
+	s.NewTasks(3)
+	s.Start(0, y.connectOp())
+	s.Wait()
+	y.Pump()
+	if op := s.ops[0]; !op.harvested || op.Err != nil {
+		s.HarnessError("connect did not succeed: %v", op.Err)
+		return
+	}
+	op := s.Start(0, y.openUpOp(upSpec{QoS: message.QoSReliable, Policy: "immediate", CloseTimeout: 30 * time.Second}))
+	s.Wait()
+	y.Pump()
+	if !op.harvested || op.Err != nil {
+		s.HarnessError("open upstream did not succeed: %v", op.Err)
+		return
+	}
+	h := y.Ups[0]
+	link := s.Net.Links[0]
+	// the movements of the base scenario, in order
+	type mv struct {
+		name string
+		do   func()
+	}
+	var moves []mv
+	for i := 0; i < sweepWrites; i++ {
+		i := i
+		moves = append(moves, mv{fmt.Sprintf("write#%d", i+1), func() {
+			s.Start(1, y.writeOp(h, 1, dataID(i%2), []int{40, 8}))
+			s.Wait()
+			s.Harvest()
+		}})
+		moves = append(moves, mv{fmt.Sprintf("chunk#%d-reaches-broker", i+1), func() { link.IngestOne(); s.Wait() }})
+		moves = append(moves, mv{fmt.Sprintf("ack#%d", i+1), func() {
+			if mask&(1<<i) == 0 {
+				return // this chunk stays unacknowledged
+			}
+			for _, p := range append([]*pend(nil), s.Broker.Pend...) {
+				if p.Kind == "ack" && p.Res.SequenceNumber == uint32(i+1) {
+					s.Broker.Release(p, nil)
+				}
+			}
+			link.DeliverAll()
+			s.Wait()
+		}})
+	}
+	cut := func(l *Link) {
+		if keepC == 1 {
+			l.IngestAll()
+		}
+		if keepB == 1 {
+			l.DeliverAll()
+		}
+		s.Wait()
+		l.Kill(errClosed, errClosed)
+		fc.cuts++
+		s.Stat("fault.cut")
+		s.Nontrivial()
+	}
+	for i, m := range moves {
+		if i == pos {
+			s.Logf("sweep: cut before %s (keepC=%d keepB=%d mask=%04b conflict=%d cutResume=%d)", m.name, keepC, keepB, mask, conflict, cutResume)
+			if conflict == 1 {
+				h.B.ConflictLeft = 1
+			}
+			cut(link)
+		}
+		if s.Idle(1) || m.name[0] != 'w' {
+			m.do()
+		}
+	}
+	if pos >= len(moves) {
+		s.Logf("sweep: cut after the last movement (keepC=%d keepB=%d mask=%04b conflict=%d cutResume=%d)", keepC, keepB, mask, conflict, cutResume)
+		if conflict == 1 {
+			h.B.ConflictLeft = 1
+		}
+		cut(link)
+	}
+	if cutResume == 1 {
+		// let the client reconnect, and cut again once the resume request is on the new link
+		for i := 0; i < 40; i++ {
+			y.Advance(250 * time.Millisecond)
+			if l := fc.connected(); l != nil && l != link {
+				resumeSeen := false
+				for _, r := range h.B.Resumes {
+					if r.Link == l.ID {
+						resumeSeen = true
+					}
+				}
+				if resumeSeen || l.PendingC2B() > 0 {
+					s.Logf("sweep: second cut during the resume exchange on %s", l)
+					l.Kill(errClosed, errClosed)
+					fc.cuts++
+					s.Stat("fault.cut-during-resume")
+					break
+				}
+			}
+		}
+	}
+	fc.settleAndJudge(1, 0)
 }
